@@ -255,6 +255,10 @@ impl<const K: usize> H<K> {
                 }
                 ev(json!({"ev": "eff", "task": me, "e": e.e, "n": 0, "s": "", "res": "ok"}));
             }
+            "ctx_weak_address" | "ctx_weak_sender" | "ctx_weak_caller" => {
+                let res = crate::scenario::put_ctx_weak::<K>(&e.s, e.e.as_str(), ctx);
+                ev(json!({"ev": "eff", "task": me, "e": e.e, "n": 0, "s": e.s, "res": res}));
+            }
             "call_peer" | "send_peer" => {
                 let res = match crate::scenario::take_peer(&e.s, &me) {
                     Some(peer) => {
